@@ -1,9 +1,9 @@
 #!/bin/sh
 # usage: tlc.sh <workers> <metadir> <cfg> <module.tla> [extra TLC args...]
-# Runs TLC with the spec directory on the library path; never writes into /verif/spec.
+# Runs TLC with the spec directory on the library path; never writes into /verif/spec; Java's temporary files go to the metadir, not to /tmp.
 W="$1"; MD="$2"; CFG="$3"; MOD="$4"; shift 4
 mkdir -p "$MD"
-exec java -XX:+UseParallelGC ${TLC_JAVA_OPTS:--Xss512m} \
+exec java -XX:+UseParallelGC -Djava.io.tmpdir="$MD" ${TLC_JAVA_OPTS:--Xss512m} \
   -cp /opt/veriftools/tla/tla2tools.jar:/opt/veriftools/tla/CommunityModules-deps.jar \
   -DTLA-Library="$(dirname "$MOD")" tlc2.TLC -workers "$W" -metadir "$MD" -cleanup -noGenerateSpecTE -nowarning \
   -config "$CFG" "$MOD" "$@"
